@@ -118,6 +118,49 @@ def build():
             ctx.check(f"byte{j}", ctx.eq(ctx.index(raw, j), spec[j]))
     R.add("header", kind="lia", samples=30)(header)
 
+    def header_after_update(ctx):
+        """the bytes are a function of the subroutine's CURRENT content: encode, update app id / version / an operand, encode again"""
+        app, app2 = ctx.int("app_id", 0, 65535), ctx.int("app_id2", 0, 65535)
+        v0, v1 = ctx.int("v0", 0, 255), ctx.int("v1", 0, 255)
+        x = mk_instr(ctx, core.SetInstruction, ["reg", "int32"])
+        sub = ctx.call(Subroutine, instructions=[x], app_id=app, netqasm_version=(v0, v1))
+        ctx.call(bytes, sub)
+        what = ctx.choice("update", ["app id", "operand", "both"])
+        if what in ("app id", "both"):
+            ctx.setattr(sub, "app_id", app2)
+        else:
+            app2 = app
+        if what in ("operand", "both"):
+            from netqasm.lang.operand import Immediate
+            ctx.setattr(x, "imm", Immediate(ctx.int("imm2", -2 ** 31, 2 ** 31 - 1)))
+        raw = ctx.call(bytes, sub)
+        spec = ctx.call(wire.header, v0, v1, app2) + ctx.call(wire.enc, 4, ["reg", "int32"], ctx.getattr(x, "operands"))
+        ctx.check("length", ctx.eq(ctx.len(raw), 11))
+        for j in range(11):
+            ctx.check(f"byte{j}", ctx.eq(ctx.index(raw, j), spec[j]))
+    R.add("header[after an update of the subroutine]", kind="lia", samples=30)(header_after_update)
+
+    # bytes produced by another implementation of the layout are dispatched to the right class by the flavour's decoder
+    from netqasm.lang.parsing import binary as _binary
+    for fname in FLAVOURS:
+        for c in flavour_classes(fname):
+            ent = table_entry(c, fname)
+            if ent is None:
+                continue
+            op, kinds, shape = ent
+
+            def mk_disp(fname=fname, c=c, op=op, kinds=kinds):
+                def f(ctx):
+                    x = mk_instr(ctx, c, kinds)
+                    spec = ctx.call(wire.enc, op, kinds, ctx.getattr(x, "operands"))
+                    raw = SymBytes(spec) if ctx.symbolic else bytes(spec)
+                    d = ctx.call(_binary.Deserializer, ctx.call(FLAVOURS[fname]))
+                    y = ctx.call(d.deserialize_command, raw)
+                    ctx.check("dispatched-to-the-class-the-table-names", type(y) is c)
+                    ctx.check("decodes-foreign-bytes", ctx.eq(y, x))
+                return f
+            R.add(f"dispatch[{fname}][{cname(c)}]", kind="lia", samples=10)(mk_disp())
+
     def metadata_struct(ctx):
         ctx.check("metadata-4-bytes", encoding.METADATA_BYTES == 4)
         ctx.check("command-7-bytes", encoding.COMMAND_BYTES == 7)
